@@ -12,6 +12,7 @@ type Environment struct {
 	store     map[string]Object
 	Aliases   map[string]string
 	toCompact []Object
+	removed   []string
 }
 
 // NewEnvironment creates a new enviroment
@@ -130,6 +131,7 @@ func (e *Environment) Remove(name string) {
 	_, ok := e.store[n]
 	if ok {
 		delete(e.store, n)
+		e.removed = append(e.removed, n)
 
 		return
 	}
@@ -154,6 +156,12 @@ func (e *Environment) Compact() {
 
 // Apply assigns the environment field to the item
 func (e *Environment) Apply(item map[string]*types.Item, aliases map[string]string, exclude map[string]bool) {
+	for _, k := range e.removed {
+		if _, ok := e.store[k]; !ok {
+			delete(item, k)
+		}
+	}
+
 	for k, v := range e.store {
 		if _, ok := exclude[k]; ok {
 			continue
